@@ -6,7 +6,6 @@ import (
 	"os"
 )
 
-func workerMain(args []string) int { fmt.Fprintln(os.Stderr, "worker: not implemented"); return 2 }
 func serveMain(args []string) int  { fmt.Fprintln(os.Stderr, "serve: not implemented"); return 2 }
 
 // replayFile re-runs the case of a recorded violation against the current tree.
